@@ -22,7 +22,7 @@ theorem formtran0_gset (mk : Masks) (tbl : List Row) (phg pha gm : Option (M α)
     (hpv : mkdofpv mk.p tbl (.mask mk.g) req true = .ok (pvdof, dof))
     (hng : setPos tbl mk.p mk.g = .ok ng) :
     out.c = ng.length ∧ out.r = pvdof.map (fun c => unitRow ng.length c) ∧ ∀ c ∈ pvdof, c < ng.length := by
-  unfold formtran0 at h
+  unfold formtran0 formtran0With at h
   rw [hpv] at h
   obtain ⟨pd, hpd, h⟩ := bind_ok h
   cases liftE_ok hpd
@@ -45,7 +45,7 @@ example : formtran0 (α := Int) (fun i d => i * 10 + d) (Masks.ofTable Generated
       none none none (.rows [(7, 0), (7, 0)]) true = .ok (⟨[[1], [1]], 1⟩, [(7, 0), (7, 0)]) ∧
     scatterRows (α := Int) 1 [0, 0] [unitRow 2 0, unitRow 2 1] = .ok [[0], [1]] := by
   constructor
-  · simp [formtran0, mkdofpv, mksetpv, expanddof, expanddof2, expandRow, digits, digitsRev, mkdofpvKeys, argsort,
+  · simp [formtran0, formtran0With, procMsetWith, iddofG, rowsOfMask, mkdofpv, mksetpv, expanddof, expanddof2, expandRow, digits, digitsRev, mkdofpvKeys, argsort,
       lookup, searchsortedLeft, key, List.mergeSort, List.zipIdx, List.MergeSort.Internal.splitInTwo,
       Masks.ofTable, Generated.UsetMask.mask, Generated.UsetMask.v_p, Generated.UsetMask.v_g, Generated.UsetMask.v_n,
       Generated.UsetMask.v_f, Generated.UsetMask.v_a, Generated.UsetMask.v_q, Generated.UsetMask.v_r,
@@ -61,7 +61,7 @@ theorem formtran0_phg (mk : Masks) (tbl : List Row) (ph : M α) (pha gm : Option
     (h : formtran0 mkKey mk tbl (some ph) pha gm req false = .ok (out, dof))
     (hpv : mkdofpv mk.p tbl (.mask mk.g) req true = .ok (pvdof, dof)) :
     out.c = ph.c ∧ List.Forall₂ (fun i row => ph.r[i]? = some row) pvdof out.r := by
-  unfold formtran0 at h
+  unfold formtran0 formtran0With at h
   rw [hpv] at h
   obtain ⟨pd, hpd, h⟩ := bind_ok h
   cases liftE_ok hpd
@@ -78,23 +78,63 @@ def Tran0Row (a m s : List Nat) (pa : M α) (mRows : List (List α)) (p : Nat) (
   (∃ (i : Nat), m[i]? = some p ∧ row ∈ mRows) ∨
   (∃ (i : Nat), s[i]? = some p ∧ row = zeroRow pa.c)
 
-/-- **only `nas['pha'][0]` available**: one row per requested DOF in request order, filled by `Tran0Row`; an o-set
-DOF in the request, or a GM that depends on the o-set, is refused (`RuntimeError`, as documented) -/
+/-! ### the `[id, dof]` table of the g-set -/
+
+/-- every row of the table is a g-set DOF (no extra points): the g-set table is the whole table -/
+theorem iddofG_eq_iddofOf (mk : Masks) (tbl : List Row)
+    (hg : ∀ r ∈ tbl, inSet r.2.2 mk.p = true ∧ inSet r.2.2 mk.g = true) :
+    iddofG mkKey mk tbl = .ok (iddofOf mkKey tbl) := by
+  unfold iddofG
+  rw [mksetpv_all_true (by
+    intro w hw
+    obtain ⟨r, hr, rfl⟩ := List.mem_map.mp hw
+    exact hg r hr)]
+  simp only [liftE, bind, Except.bind, List.map_map, List.length_map, ne_eq, not_true_eq_false, if_false]
+  have : (tbl.map ((fun _ => true) ∘ fun (x : Row) => x.2.2)) = tbl.map fun _ => true := rfl
+  rw [this, rowsOfMask_all_true]
+
+/-- **`iddof` (since fix e74e9b9 of finding F69) is the `[id, dof]` table of the g-set**: its `p`-th entry is the `[id, dof]` of the table row at the
+`p`-th position of `np.nonzero(mksetpv(uset, "p", "g"))[0]` - the numbering `mkdofpv(uset, "g", …)` and
+`mksetpv(uset, "g", x)` (the `a`, `m`, `s`, `t`, `o`, `q` of the routines) use -/
+theorem iddofG_is_gset_rows (mk : Masks) (tbl : List Row) (idg : List κ) (h : iddofG mkKey mk tbl = .ok idg) :
+    ∃ (gpos : List Nat) (rows : List Row), setPos tbl mk.p mk.g = .ok gpos ∧
+      List.Forall₂ (fun i r => tbl[i]? = some r) gpos rows ∧ idg = rows.map fun r => mkKey r.1 r.2.1 := by
+  unfold iddofG at h
+  obtain ⟨pv, hpv, h⟩ := bind_ok h
+  split at h
+  · cases h
+  · rename_i hlen
+    simp only [Except.ok.injEq] at h
+    refine ⟨positions pv, rowsOfMask tbl pv, ?_, ?_, h.symm⟩
+    · unfold setPos
+      rw [liftE_ok hpv]
+      rfl
+    · have := rowsOfMask_positions tbl pv 0 (by simpa using hlen)
+      unfold positions
+      exact this.imp fun i r ⟨j, hi, hj⟩ => by rw [hi, Nat.zero_add]; exact hj
+
+/-- **only `nas['pha'][0]` available**: one row per requested DOF in request order, filled by
+`Tran0Row` - the `pha` row of an a-set DOF, a row of `gm[:, a_n] @ pha` for an m-set DOF, zero for an s-set DOF - where
+the position `p` that ties the requested DOF to its set is a position in `idg`, the `[id, dof]` table OF THE G-SET
+(`iddofG`), the table `a`, `m`, `s` (positions within the g-set) refer to.  An o-set DOF in the request, or a GM that
+depends on the o-set, is refused (`RuntimeError`, as documented). -/
 theorem formtran0_pha (mk : Masks) (tbl : List Row) (pa : M α) (gm : Option (M α)) (req : Request)
     (out : M α) (dof : List (Nat × Nat)) (pvdof : List Nat)
     (h : formtran0 mkKey mk tbl none (some pa) gm req false = .ok (out, dof))
     (hpv : mkdofpv mk.p tbl (.mask mk.g) req true = .ok (pvdof, dof)) :
-    ∃ (a m s : List Nat) (mRows : List (List α)),
+    ∃ (idg : List κ) (a m s : List Nat) (mRows : List (List α)),
+      iddofG mkKey mk tbl = .ok idg ∧
       setPos tbl mk.g mk.a = .ok a ∧ setPos tbl mk.g mk.s = .ok s ∧
       (mRows ≠ [] → setPos tbl mk.g mk.m = .ok m) ∧ out.c = pa.c ∧
-      List.Forall₂ (fun d row => ∃ p, (iddofOf mkKey tbl)[p]? = some (mkKey d.1 d.2) ∧
+      List.Forall₂ (fun d row => ∃ p, idg[p]? = some (mkKey d.1 d.2) ∧
         Tran0Row a m s pa mRows p row) dof out.r := by
-  unfold formtran0 at h
+  unfold formtran0 formtran0With at h
   rw [hpv] at h
   obtain ⟨pd, hpd, h⟩ := bind_ok h
   cases liftE_ok hpd
   simp only [Bool.false_eq_true, if_false] at h
   obtain ⟨o, _, h⟩ := bind_ok h
+  obtain ⟨idg, hidg, h⟩ := bind_ok h
   obtain ⟨vo, _, h⟩ := bind_ok h
   split at h
   · cases h
@@ -124,16 +164,16 @@ theorem formtran0_pha (mk : Masks) (tbl : List Row) (pa : M α) (gm : Option (M 
       rw [hp] at hp'; simp only [Option.some.injEq] at hp'; subst hp'
       obtain ⟨i, _, hi⟩ := forall₂_getElem?' hfs k p hp
       exact ⟨i, hi, rfl⟩
-    -- the rest of the argument, for whatever the m-set part is
     have tail : ∀ (m' m : List Nat) (mRows : List (List α)),
         (mRows ≠ [] → setPos tbl mk.g mk.m = .ok m) →
         List.Forall₂ (fun p row => ∃ (i : Nat), m[i]? = some p ∧ row ∈ mRows) m' mRows →
-        reorder (iddofOf mkKey tbl) (a' ++ m' ++ s') (dofRows mkKey dof) pvdof.length
+        reorder idg (a' ++ m' ++ s') (dofRows mkKey dof) pvdof.length
           (aRows.r ++ mRows ++ s'.map fun _ => zeroRow pa.c) pa.c = .ok o' →
-        ∃ (a m s : List Nat) (mRows : List (List α)),
+        ∃ (idg' : List κ) (a m s : List Nat) (mRows : List (List α)),
+          iddofG mkKey mk tbl = .ok idg' ∧
           setPos tbl mk.g mk.a = .ok a ∧ setPos tbl mk.g mk.s = .ok s ∧
           (mRows ≠ [] → setPos tbl mk.g mk.m = .ok m) ∧ o'.c = pa.c ∧
-          List.Forall₂ (fun d row => ∃ p, (iddofOf mkKey tbl)[p]? = some (mkKey d.1 d.2) ∧
+          List.Forall₂ (fun d row => ∃ p, idg'[p]? = some (mkKey d.1 d.2) ∧
             Tran0Row a m s pa mRows p row) dof o'.r := by
       intro m' m mRows hmset hfm ho'
       have hall : List.Forall₂ (Tran0Row a m s pa mRows) (a' ++ m' ++ s')
@@ -143,7 +183,7 @@ theorem formtran0_pha (mk : Masks) (tbl : List Row) (pa : M α) (gm : Option (M 
         · exact hfm.imp fun p row h => Or.inr (Or.inl h)
         · exact hS.imp fun p row h => Or.inr (Or.inr h)
       have hre := reorder_spec ho' hall.length_eq.symm (by rw [mkdofpv_lengths hpv]; simp [dofRows])
-      refine ⟨a, m, s, mRows, ha, hs, hmset, hre.1, ?_⟩
+      refine ⟨idg, a, m, s, mRows, hidg, ha, hs, hmset, hre.1, ?_⟩
       have h2 := hre.2
       unfold dofRows at h2
       rw [List.forall₂_map_left_iff] at h2
@@ -161,7 +201,7 @@ theorem formtran0_pha (mk : Masks) (tbl : List Row) (pa : M α) (gm : Option (M 
         exact tail [] [] [] (fun hne => absurd rfl hne) .nil ho'
     | some y =>
         obtain ⟨m', g'⟩ := y
-        obtain ⟨m, gmM, pv, hm, _, hfm, _, hfg⟩ := procMset_spec mkKey hpm
+        obtain ⟨m, gmM, pv, hm, _, hfm, _, hfg⟩ := procMsetWith_spec hpm
         simp only at hmR
         obtain ⟨a_n, _, hmR⟩ := bind_ok hmR
         obtain ⟨gma, hgma, hmR⟩ := bind_ok hmR
@@ -197,7 +237,7 @@ example : formtran0 (α := Int) exKey0 exMasks0 exTbl0 none none none (.rows [(7
       (.rows [(7, 0), (6, 0)]) false = .ok (⟨[[10], [32]], 1⟩, [(7, 0), (6, 0)]) ∧
     mkdofpv exMasks0.p exTbl0 (.mask exMasks0.g) (.rows [(7, 0), (6, 0)]) true = .ok ([2, 1], [(7, 0), (6, 0)]) ∧
     setPos exTbl0 exMasks0.p exMasks0.g = .ok [0, 1, 2] := by
-  simp [formtran0, mkdofpv, mksetpv, expanddof, expanddof2, expandRow, digits, digitsRev, mkdofpvKeys, argsort,
+  simp [formtran0, formtran0With, procMsetWith, iddofG, rowsOfMask, mkdofpv, mksetpv, expanddof, expanddof2, expandRow, digits, digitsRev, mkdofpvKeys, argsort,
     lookup, searchsortedLeft, key, List.mergeSort, List.zipIdx, List.MergeSort.Internal.splitInTwo,
     exMasks0, Masks.ofTable, exTbl0, mask, v_p, v_g, v_n, v_f, v_a, v_q, v_r, v_b, v_c, v_o, v_s, v_m, v_e, v_l, v_t,
     inSet, liftE, setPos, positions, selIn, takeIdx, matIntersect, lookupAll, iddofOf, dofRows, exKey0,
@@ -205,6 +245,27 @@ example : formtran0 (α := Int) exKey0 exMasks0 exTbl0 none none none (.rows [(7
     scatterRows, setCols, rowsAt, unitRow, zeroRow, reorder,
     bind, Except.bind, pure, Except.pure, Except.map, List.mapM_cons, List.mapM_nil]
   decide
+
+/-- `make_uset([[1, 0], [2, 123456], [3, 0]], ['e', 'b', 'q'])`: an extra point in front of the a-set DOF -/
+def exTblF69 : List Row :=
+  [(1, 0, 2048), (2, 1, 2097154), (2, 2, 2097154), (2, 3, 2097154), (2, 4, 2097154), (2, 5, 2097154), (2, 6, 2097154),
+   (3, 0, 4194304)]
+
+/-- `np.arange(14.).reshape(7, 2)` -/
+def exPhaF69 : M Int := ⟨[[0, 1], [2, 3], [4, 5], [6, 7], [8, 9], [10, 11], [12, 13]], 2⟩
+
+/-- `formtran({'uset': {0: u}, 'pha': {0: pha}}, 0, [[2, 1], [3, 0]])` returns `pha[[0, 6]]` (the input of finding F69:
+before fix e74e9b9 the routine raised `RuntimeError`); the g-set table has seven rows, the extra point is not among them -/
+example : formtran0 (α := Int) exKey0 exMasks0 exTblF69 none (some exPhaF69) none (.rows [(2, 1), (3, 0)]) false
+      = .ok (⟨[[0, 1], [12, 13]], 2⟩, [(2, 1), (3, 0)]) ∧
+    iddofG exKey0 exMasks0 exTblF69 = .ok [21, 22, 23, 24, 25, 26, 30] := by
+  simp [formtran0, formtran0With, procMsetWith, iddofG, rowsOfMask, mkdofpv, mksetpv, expanddof, expanddof2, expandRow, digits, digitsRev, mkdofpvKeys, argsort,
+    lookup, searchsortedLeft, key, List.mergeSort, List.zipIdx, List.MergeSort.Internal.splitInTwo,
+    exMasks0, Masks.ofTable, exTblF69, exPhaF69, mask, v_p, v_g, v_n, v_f, v_a, v_q, v_r, v_b, v_c, v_o, v_s, v_m, v_e, v_l, v_t,
+    inSet, liftE, setPos, positions, selIn, takeIdx, matIntersect, lookupAll, iddofOf, dofRows, exKey0,
+    procMset, colsAt, anyCols, dot, rowComb, addRow, smulRow,
+    scatterRows, setCols, rowsAt, unitRow, zeroRow, reorder,
+    bind, Except.bind, pure, Except.pure, Except.map, List.mapM_cons, List.mapM_nil]
 
 end examples
 
